@@ -31,7 +31,7 @@
  ],
  "native_replay": false,
  "timeout": 600,
- "tier": "thorough"
+ "tier": "quick"
 }
 @*/
 /* C13.div_2d  c = a / 2^b with d == NULL (every call site in the library passes NULL; the remainder
